@@ -284,6 +284,7 @@ pub struct World<'p, C: SimCfg> {
 const D_TICK: u64 = dom("tick.jitter");
 const D_PREPOLL: u64 = dom("tick.prepoll");
 const D_INPUT: u64 = dom("input");
+const D_SUBMIT: u64 = dom("submit.order");
 const CL_INJECT: u8 = 1;
 const CL_POLL: u8 = 2;
 const CL_TICK: u8 = 3;
@@ -1215,7 +1216,20 @@ impl<'p, C: SimCfg> World<'p, C> {
         let u = s.current_frame();
         let state_before = s.current_state();
         let mut submitted: Vec<(usize, u32)> = Vec::new();
-        for &l in &locals {
+        let mut order = locals.clone();
+        if cfg.shuffle_submissions && order.len() > 1 {
+            let r = h(plan.seed, D_SUBMIT, &[i as u64, node.tick_no]) as usize;
+            order.rotate_left(r % locals.len());
+            if (r >> 8) & 1 == 1 {
+                order.reverse();
+            }
+        }
+        for &l in &order {
+            if cfg.shuffle_submissions && h(plan.seed, D_SUBMIT, &[i as u64, node.tick_no, l as u64, 1]) % 8 == 0 {
+                // a throw-away submission that the real one overwrites
+                let _ = s.add_local_input(l, C::enc(0xDEAD_0000 | l as u32));
+                *self.probes.extra.entry("throwaway_submissions").or_insert(0) += 1;
+            }
             let att = node.attempts.entry(l).or_insert((-1, 0));
             if att.0 == u {
                 att.1 += 1;
